@@ -152,6 +152,7 @@ def run(rep):
     rep.stat('c_paths_enumerated', npaths)
 
     # ---- B2b ------------------------------------------------------------------
+    from . import csem as csem_
     for fn in scope:
         f = u.func(fn)
         g = ccfg(f)
@@ -169,7 +170,9 @@ def run(rep):
                         for c in node_calls(m):
                             if c.a[0] == 'Py_CLEAR' and is_field(c.a[1][0], 'self', fld):
                                 return True
-                            if c.a[0] in ('VB_clear', 'LB_clear'):
+                            if isinstance(c.a[0], str) and c.a[0] in u.funcs and \
+                                    c.a[1] and is_var(c.a[1][0], 'self') and \
+                                    csem_.fn_clears(u, c.a[0], fld):
                                 return True
                             if c.a[0] in ('Py_XDECREF', 'Py_DECREF', 'Py_SETREF',
                                           'Py_XSETREF') and c.a[1] and \
